@@ -803,12 +803,13 @@ Proof.
   rewrite skipn_app_exact by apply meta_encode_length. now rewrite fit_exact.
 Qed.
 
-Lemma path_dec_enc p : wf_path p -> (forall d, p <> PDecoded d) ->
+Lemma path_dec_enc p : wf_path p -> (forall d, p <> PDecoded d) -> is_opaque p = false ->
   exists e, path_encode p = Ok e /\ length e = path_len p /\
             path_decode (path_type p) e = Ok (path_canon p, []) /\
             path_encode (path_canon p) = Ok e.
 Proof.
-  intros W ND. destruct p as [|r|o|x|d]; cbn [wf_path path_encode path_len path_type path_canon] in *.
+  intros W ND NO. destruct p as [|r|o|x|d|t b]; cbn [wf_path path_encode path_len path_type path_canon] in *.
+  6:{ discriminate. }
   - exists []. repeat split; reflexivity.
   - destruct (raw_dec_enc_canon r [] W) as (e & E & D & L & E2). rewrite app_nil_r in D.
     exists e. unfold path_decode. rewrite D. cbn [bind]. auto.
@@ -889,3 +890,25 @@ Lemma path_reject_short pt bs p rest : path_decode pt bs = Ok (p, rest) -> wf_by
 Proof.
   intros H W. destruct (path_enc_dec _ _ _ _ W H) as (e & _ & _ & _ & _ & _ & L & _). lia.
 Qed.
+
+(** ------------------------------------------------------------ recycled layer: opaque paths *)
+Lemma path_r_no_panic pt bs : path_decode_r pt bs <> Panic.
+Proof. unfold path_decode_r. destruct (pt <=? 3); [apply path_no_panic | discriminate]. Qed.
+
+Lemma path_r_enc_dec pt bs p rest : pt < 256 -> wf_bytes bs -> path_decode_r pt bs = Ok (p, rest) ->
+  exists e, path_encode p = Ok e /\ e ++ rest = mask_path pt bs /\ wf_path p /\ wf_bytes rest /\
+            path_type p = pt /\ length bs = (path_len p + length rest)%nat /\
+            (forall d, p <> PDecoded d).
+Proof.
+  intros P W. unfold path_decode_r. destruct (pt <=? 3) eqn:E; [now apply path_enc_dec|].
+  apply N.leb_gt in E. intros H; injection H as <- <-.
+  exists bs. cbn [path_encode wf_path path_type path_len].
+  split; [reflexivity|]. split.
+  { rewrite app_nil_r. unfold mask_path. destruct pt as [|[[|[]|]|[|[]|]|]]; try reflexivity; lia. }
+  split; [split; [exact E | split; [exact P | exact W]]|]. split; [constructor|]. split; [reflexivity|].
+  split; [cbn; lia | discriminate].
+Qed.
+
+(** on the four registered path types recycling changes nothing *)
+Lemma path_r_same pt bs : pt <= 3 -> path_decode_r pt bs = path_decode pt bs.
+Proof. intros H. unfold path_decode_r. apply N.leb_le in H. now rewrite H. Qed.
